@@ -1,6 +1,7 @@
 pub mod c05;
 pub mod c06;
 pub mod c07;
+pub mod c08;
 pub mod c09;
 pub mod c10;
 pub mod c11;
@@ -33,6 +34,7 @@ pub fn run(id: &str, cfg: &RunCfg) -> Option<PropResult> {
         "C05" => Some(c05::run(cfg)),
         "C06" => Some(c06::run(cfg)),
         "C07" => Some(c07::run(cfg)),
+        "C08" => Some(c08::run(cfg)),
         "C09" => Some(c09::run(cfg)),
         "C10" => Some(c10::run(cfg)),
         "C11" => Some(c11::run(cfg)),
